@@ -1451,7 +1451,7 @@ pub fn replay(cl: Clause, kind: &str, input: &str) -> Result<Option<String>, Str
 /// Byte-equality of the Lean `renderCm` with the real `format_commonmark` on parsed documents and
 /// directly built trees x random option vectors (all options, `experimental_minimize_commonmark` off:
 /// it re-runs parser and writer and is outside the model).
-pub fn run_k(rep: &mut crate::report::Report, seed: u64, n: usize) {
+pub fn run_k(rep: &mut crate::report::Report, seed: u64, n: usize, cl: Clause) {
     use crate::htmlk::gen_case;
     use crate::model::{Batch, Model};
     let m = Model::from_env();
@@ -1502,10 +1502,22 @@ pub fn run_k(rep: &mut crate::report::Report, seed: u64, n: usize) {
                     if rep.samples.len() < 6 && kinds.len() > 3 {
                         rep.sample(format!("K: {} opts [{}]", src.show(), o.describe()));
                     }
+                    let doc_md = match &src {
+                        crate::htmlk::Src::Doc(md) => Some((o.clone(), md.clone())),
+                        _ => None,
+                    };
                     bt.push(format!("cm {} {}", o.wire(), wire), move |resp, rep| {
                         rep.k_evals += 1;
                         if resp != crate::util::hex(&real) {
                             let mm = crate::util::unhex(resp).unwrap_or_default();
+                            // search for a failing input among the disagreeing documents: the clause fails with what
+                            // the real writer wrote and holds with what the model (the writer as it was) writes
+                            if let Some((o, md)) = &doc_md {
+                                if let Some(d) = regression_vs_model(o, md, &real, &mm, cl) {
+                                    let kind = if cl == Clause::Html { "html-roundtrip" } else { "cm-idempotent" };
+                                    rep.fail(kind, "fails-with-real-writer-holds-with-model-writer", input.clone(), d);
+                                }
+                            }
                             rep.disagree("cm-bytes", input, crate::util::diff_window(&real, &mm));
                         }
                     });
@@ -1513,6 +1525,55 @@ pub fn run_k(rep: &mut crate::report::Report, seed: u64, n: usize) {
             }
         }
         bt.run(&m, rep);
+    }
+}
+
+/// The clause evaluated once with the bytes the real writer produced and once with the bytes the model
+/// produced for the same tree (second passes always by the real code). `Some(detail)` iff it fails
+/// with the former and holds with the latter.
+pub fn regression_vs_model(o: &Opts, md: &str, real_cm: &[u8], model_cm: &[u8], cl: Clause) -> Option<String> {
+    let c = o.to_comrak();
+    let hc = html_view(o).to_comrak();
+    let second = |cm: &[u8]| -> Option<(Vec<u8>, Vec<u8>)> {
+        let s = String::from_utf8(cm.to_vec()).ok()?;
+        catch_unwind(AssertUnwindSafe(|| {
+            let arena = Arena::new();
+            let root = parse_document(&arena, &s, &c);
+            let mut cm2 = Vec::new();
+            format_commonmark(root, &c, &mut cm2).unwrap();
+            let mut h = Vec::new();
+            normalize_ws(root, o.width > 0);
+            format_html(root, &hc, &mut h).unwrap();
+            (cm2, strip_end_list(&h))
+        }))
+        .ok()
+    };
+    let html0 = catch_unwind(AssertUnwindSafe(|| {
+        let arena = Arena::new();
+        let root = parse_document(&arena, md, &c);
+        let mut h = Vec::new();
+        normalize_ws(root, o.width > 0);
+        format_html(root, &hc, &mut h).unwrap();
+        strip_end_list(&h)
+    }))
+    .ok()?;
+    let (r_cm2, r_html) = second(real_cm)?;
+    let (m_cm2, m_html) = second(model_cm)?;
+    match cl {
+        Clause::Html => {
+            if r_html != html0 && m_html == html0 {
+                Some(format!("cm={:?} :: html {}", crate::util::show(real_cm), crate::util::diff_window(&html0, &r_html).replace("real", "original").replace("model", "round-tripped")))
+            } else {
+                None
+            }
+        }
+        Clause::Idem => {
+            if r_cm2 != real_cm && m_cm2 == model_cm {
+                Some(format!("cm1={:?} :: {}", crate::util::show(real_cm), crate::util::diff_window(real_cm, &r_cm2).replace("real", "first-pass").replace("model", "second-pass")))
+            } else {
+                None
+            }
+        }
     }
 }
 
